@@ -1,0 +1,12 @@
+//go:build verif
+
+package gabikeys
+
+// Export-only accessors for the verification harness in /verif (build tag "verif").
+
+import "github.com/privacybydesign/gabi/big"
+
+// VerifFindMatch exposes findMatch (choice of the second safe prime).
+func VerifFindMatch(safeprimes []*big.Int, param *SystemParameters, p *big.Int) *big.Int {
+	return findMatch(safeprimes, param, p, new(big.Int), new(big.Int), new(big.Int))
+}
